@@ -541,7 +541,7 @@ def gen_configs(ctx):
                              "members": [{"mode": a, "delay_ms": d[0], "pick": 0},
                                          {"mode": b, "delay_ms": d[1], "pick": 1}],
                              "script": gen_script(rng, 2)})
-    n_random = 200 if ctx.tier == "quick" else 6000
+    n_random = 320 if ctx.tier == "quick" else 6000
     shapes = ["mixed"] * 5 + ["all-fail"] * 2 + ["all-answer"] * 2 + ["one-answer"] * 2 + ["poll"] * 2
     for _ in range(n_random):
         n = rng.choice([2, 3, 3, 4, 4])
@@ -689,7 +689,7 @@ def check_result(ctx, cfg, records, blocked, lean_sets, reports):
                 observed = "v:F"
             else:
                 observed = "v:?" + str(rec.get("res"))
-            ctx.count("outcome " + observed.split(":")[0] + (":" + shape_of(cfg)))
+            ctx.count("outcome " + observed.split(":")[0] + (":" + shape_of(cfg)) + (" eoe" if cfg["eoe"] else ""))
             # K: observed in the model's set
             line = lean_line(cfg, truth)
             allowed = lean_sets.get(line)
@@ -707,6 +707,12 @@ def check_result(ctx, cfg, records, blocked, lean_sets, reports):
                                 % (observed, sorted(ok), [show(f) for f in cur], "sat" if truth else "unsat")))
             if observed.startswith("v:"):
                 w = rec.get("winner")
+                ans = [(m["delay_ms"], i) for i, m in enumerate(cfg["members"]) if m["mode"] == "answer"]
+                if len(ans) >= 2:
+                    ctx.count("race won by the member with the smallest delay" if (w is not None and w < len(cfg["members"])
+                              and cfg["members"][w]["delay_ms"] == min(ans)[0]) else "race won by a slower member")
+                    if w is not None and w != min(ans)[1]:
+                        ctx.count("race won by a member other than the first fastest")
                 if w is None or not (0 <= w < len(cfg["members"])) or cfg["members"][w]["mode"] != "answer":
                     reports.append(("k", None, "verdict_in_answers: _ext_solver is member %r, which does not answer" % (w,)))
                     reports.append(("s", dict(base, oracle="winner-answers", call="solve"),
@@ -799,7 +805,13 @@ def lean_outcome_sets(ctx, cfgs):
         if "blocked" in qo or "foreign" in qo:
             ctx.report_l("driver C19: query outcomes %s for %r (expected only `winner` under A1)" % (sorted(qo), line))
         sets[line] = (so, qo)
+        if len(parts) > 3:
+            for kv in parts[3].split():
+                k, v = kv.split("=")
+                ctx.extra[k] = ctx.extra.get(k, 0) + int(v)
     ctx.extra["model_configurations_explored"] = len(sets)
+    ctx.extra["exhaustive"] = "the model's schedules are enumerated completely for every configuration used " \
+                              "(states/transitions = totals); the schedules of the real system are sampled"
     return sets
 
 
